@@ -124,14 +124,14 @@ macro_rules! multi_impl {
         }
     };
 }
-macro_rules! multi_kinds { ($n:literal) => {
-    multi_impl!(ChannelMultiArcAtomic<u32, $n, 1>, Arc<u32>, |a: Arc<u32>| (*a, Some(Box::new(a) as Box<dyn std::any::Any + Send>)), false);
-    multi_impl!(ChannelMultiArcFullSync<u32, $n, 1>, Arc<u32>, |a: Arc<u32>| (*a, Some(Box::new(a) as Box<dyn std::any::Any + Send>)), false);
-    multi_impl!(ChannelMultiArcCrossbeam<u32, $n, 1>, Arc<u32>, |a: Arc<u32>| (*a, Some(Box::new(a) as Box<dyn std::any::Any + Send>)), false);
-    multi_impl!(ChannelMultiOgreArcAtomic<u32, $n, 1>, OgreArc<u32, AllocatorAtomicArray<u32, $n>>, |a: OgreArc<u32, AllocatorAtomicArray<u32, $n>>| (*a, Some(Box::new(a) as Box<dyn std::any::Any + Send>)), true);
-    multi_impl!(ChannelMultiOgreArcFullSync<u32, $n, 1>, OgreArc<u32, AllocatorFullSyncArray<u32, $n>>, |a: OgreArc<u32, AllocatorFullSyncArray<u32, $n>>| (*a, Some(Box::new(a) as Box<dyn std::any::Any + Send>)), true);
+macro_rules! multi_kinds { ($n:literal, $m:literal) => {
+    multi_impl!(ChannelMultiArcAtomic<u32, $n, $m>, Arc<u32>, |a: Arc<u32>| (*a, Some(Box::new(a) as Box<dyn std::any::Any + Send>)), false);
+    multi_impl!(ChannelMultiArcFullSync<u32, $n, $m>, Arc<u32>, |a: Arc<u32>| (*a, Some(Box::new(a) as Box<dyn std::any::Any + Send>)), false);
+    multi_impl!(ChannelMultiArcCrossbeam<u32, $n, $m>, Arc<u32>, |a: Arc<u32>| (*a, Some(Box::new(a) as Box<dyn std::any::Any + Send>)), false);
+    multi_impl!(ChannelMultiOgreArcAtomic<u32, $n, $m>, OgreArc<u32, AllocatorAtomicArray<u32, $n>>, |a: OgreArc<u32, AllocatorAtomicArray<u32, $n>>| (*a, Some(Box::new(a) as Box<dyn std::any::Any + Send>)), true);
+    multi_impl!(ChannelMultiOgreArcFullSync<u32, $n, $m>, OgreArc<u32, AllocatorFullSyncArray<u32, $n>>, |a: OgreArc<u32, AllocatorFullSyncArray<u32, $n>>| (*a, Some(Box::new(a) as Box<dyn std::any::Any + Send>)), true);
 } }
-multi_kinds!(8); multi_kinds!(16);
+multi_kinds!(8, 1); multi_kinds!(16, 1); multi_kinds!(16, 2);
 
 macro_rules! kinds {
     ($n:literal, $m:literal) => {
@@ -146,19 +146,19 @@ kinds!(2, 1); kinds!(2, 2); kinds!(4, 1); kinds!(4, 2);
 
 fn leak<C: 'static>(c: Arc<C>) -> &'static Arc<C> { Box::leak(Box::new(c)) }
 
-fn make_multi(kind: &str, n: usize) -> Arc<dyn UniApi> {
-    macro_rules! mk { ($n:literal) => { match kind {
-        "marc_atomic" => Arc::new(W(leak(ChannelMultiArcAtomic::<u32, $n, 1>::new("vh")))) as Arc<dyn UniApi>,
-        "marc_fullsync" => Arc::new(W(leak(ChannelMultiArcFullSync::<u32, $n, 1>::new("vh")))),
-        "marc_crossbeam" => Arc::new(W(leak(ChannelMultiArcCrossbeam::<u32, $n, 1>::new("vh")))),
-        "mogre_atomic" => Arc::new(W(leak(ChannelMultiOgreArcAtomic::<u32, $n, 1>::new("vh")))),
-        _ => Arc::new(W(leak(ChannelMultiOgreArcFullSync::<u32, $n, 1>::new("vh")))),
+fn make_multi(kind: &str, n: usize, m: usize) -> Arc<dyn UniApi> {
+    macro_rules! mk { ($n:literal, $m:literal) => { match kind {
+        "marc_atomic" => Arc::new(W(leak(ChannelMultiArcAtomic::<u32, $n, $m>::new("vh")))) as Arc<dyn UniApi>,
+        "marc_fullsync" => Arc::new(W(leak(ChannelMultiArcFullSync::<u32, $n, $m>::new("vh")))),
+        "marc_crossbeam" => Arc::new(W(leak(ChannelMultiArcCrossbeam::<u32, $n, $m>::new("vh")))),
+        "mogre_atomic" => Arc::new(W(leak(ChannelMultiOgreArcAtomic::<u32, $n, $m>::new("vh")))),
+        _ => Arc::new(W(leak(ChannelMultiOgreArcFullSync::<u32, $n, $m>::new("vh")))),
     } } }
-    if n == 8 { mk!(8) } else { mk!(16) }
+    if m == 2 { mk!(16, 2) } else if n == 8 { mk!(8, 1) } else { mk!(16, 1) }
 }
 
 fn make(kind: &str, n: usize, m: usize) -> Arc<dyn UniApi> {
-    if kind.starts_with("marc") || kind.starts_with("mogre") { return make_multi(kind, n) }
+    if kind.starts_with("marc") || kind.starts_with("mogre") { return make_multi(kind, n, m) }
     macro_rules! mk { ($n:literal, $m:literal) => { match kind {
         "matomic" => Arc::new(W(leak(ChannelUniMoveAtomic::<u32, $n, $m>::new("vh")))) as Arc<dyn UniApi>,
         "mfullsync" => Arc::new(W(leak(ChannelUniMoveFullSync::<u32, $n, $m>::new("vh")))),
@@ -194,8 +194,10 @@ fn run_one(kind: &str, sub: Sub, seed: u64, replay: Option<Vec<u8>>) -> (sched::
     let mut rng = Rng::new(seed ^ 0xC0FFEE);
     let is_multi = kind.starts_with("marc") || kind.starts_with("mogre");
     let n = if is_multi { let _ = rng.chance(1, 2); 16 } else if rng.chance(1, 2) { 2 } else { 4 };
-    let mx = if is_multi { 1 } else { rng.range(1, 2) as usize };
-    let k = rng.range(1, mx as u64) as usize;
+    // (Multi kinds are driven through one listener -- except in `susp`, where half of the runs have two: every listener's queue is
+    //  then a separate consumer of the same events)
+    let mx = if is_multi { if sub == Sub::Susp && rng.chance(1, 2) { 2 } else { 1 } } else { rng.range(1, 2) as usize };
+    let k = if is_multi { mx } else { rng.range(1, mx as u64) as usize };
     let ch = make(kind, n, mx);
     // Multi channels seen through one listener: every send allocates first (Arc / pool slot) and touches the listener's queue after
     // the await -- the zero-copy flavour of the asynchronous send; only the ogre_arc pool bounds what is outstanding
@@ -247,9 +249,17 @@ fn run_one(kind: &str, sub: Sub, seed: u64, replay: Option<Vec<u8>>) -> (sched::
                         sh.lock().unwrap().evs.push(Ev { who: p, what: "others_finished".into(), v, pos });
                         gate.store(true, SeqCst);
                         ctx.call(p, "resume");
-                        match fut.as_mut().poll(&mut cx) {
-                            Poll::Ready(ok) => { ctx.ret(if ok { "ok" } else { "full" }); sh.lock().unwrap().evs.push(Ev { who: p, what: "sent".into(), v, pos }); }
-                            Poll::Pending => panic!("send_with_async still pending after its setter completed"),
+                        // its setter has completed and nobody else is active: re-polled like a yielding task, the send must come back
+                        let mut tries = 0;
+                        loop {
+                            match fut.as_mut().poll(&mut cx) {
+                                Poll::Ready(ok) => { ctx.ret(if ok { "ok" } else { "full" }); sh.lock().unwrap().evs.push(Ev { who: p, what: if ok { "sent".into() } else { "rejected".into() }, v, pos }); break }
+                                Poll::Pending => {
+                                    tries += 1;
+                                    if tries > 60 { ctx.ret("stuck"); sh.lock().unwrap().evs.push(Ev { who: p, what: "async_waits".into(), v, pos }); break }
+                                    ctx.yield_point("h.repoll", 0);
+                                }
+                            }
                         }
                     }
                 }
@@ -425,11 +435,14 @@ fn run_one(kind: &str, sub: Sub, seed: u64, replay: Option<Vec<u8>>) -> (sched::
     let mut seen = std::collections::HashMap::new();
     for g in &got {
         if g.v < 500 || (g.v >= 600 && !sent.iter().any(|e| e.v == g.v)) { if !(500..600).contains(&g.v) { viol.push(("invented".into(), format!("stream {} yielded {} which no successful send carried", g.who - 100, g.v))); } }
-        if let Some(p) = seen.insert(g.v, g.who) { viol.push(("duplicate".into(), format!("event {} yielded twice (streams {} and {})", g.v, p - 100, g.who - 100))); }
+        if let Some(p) = seen.insert(g.v, g.who) { if !(is_multi && k > 1 && p != g.who) { viol.push(("duplicate".into(), format!("event {} yielded twice (streams {} and {})", g.v, p - 100, g.who - 100))); } }
     }
     for e in s.evs.iter().filter(|e| e.what == "async_stuck") {
         let other_suspended = s.evs.iter().any(|x| x.what == "suspended") && !s.evs.iter().any(|x| x.what == "others_finished");
         viol.push(("blocked_by_suspended_send".into(), format!("the send_with_async of event {} (producer {}) stayed pending through 60 re-polls after its own setter had completed{} (kind {kind})", e.v, e.who, if other_suspended { " while another send_with_async was suspended" } else { "" })));
+    }
+    for e in s.evs.iter().filter(|e| e.what == "async_waits") {
+        viol.push(("async_send_never_returned".into(), format!("the send_with_async of event {} (producer {}) stayed pending through 60 re-polls after its setter had completed and every other producer had finished ({} event(s) pending, kind {kind}): it neither accepted nor rejected the event -- it waits", e.v, e.who, ch.pending())));
     }
     for r in s.evs.iter().filter(|e| e.what == "rejected") { if seen.contains_key(&r.v) { viol.push(("rejected_delivered".into(), format!("event {} was rejected (buffer full) but a stream yielded it", r.v))); } }
     // per-producer order within one stream
@@ -458,10 +471,13 @@ fn run_one(kind: &str, sub: Sub, seed: u64, replay: Option<Vec<u8>>) -> (sched::
             if !drained.load(SeqCst) {
                 let pending = ch.pending();
                 let c = cancelled.lock().unwrap().clone();
+                // (a producer that panicked never reports `done`: with nothing pending this is the aftermath of the panic, reported below)
+                if !(pending == 0 && c.is_empty() && outcome.panics.iter().any(|p| p.is_some())) {
                 // which streams are parked and un-notified
                 viol.push((if sub == Sub::Cancel && !c.is_empty() && pending == 0 { "cancelled_stream_never_ended" }
                            else if sub == Sub::Cancel && !c.is_empty() && c.len() < k { "untargeted_stream_starved" } else { "lost_wakeup" }.into(),
                            format!("every producer returned, every live stream is parked with its waker not invoked, and {pending} accepted event(s) are still pending (kind {kind}, N={n}, MAX_STREAMS={mx}, {k} stream(s))")));
+                }
             } else {
                 viol.push(("cancelled_stream_never_ended".into(), "a stream that was told to end stayed parked: its waker was never invoked after the request".into()));
             }
